@@ -1,2 +1,157 @@
--- driver stub for C01 (replaced when the model is built)
-def main : IO Unit := pure ()
+import PyramidModel.Prelude
+import PyramidModel.Route
+/-! Driver for C01: one JSON case per line.  Texts travel as lists of code points, bytes as lists of numbers.
+in : {"ucd":{"word":[cp…],"digit":[…],"space":[…]}, "rxlib":[RX…],
+      "routes":[{"name":T,"pattern":T,"preds":[["c",bool] | ["e",T,T]…],"static":bool}…], "path":[byte…]|null}
+     RX = ["eps"] | ["chr",cp] | ["any"] | ["set",neg,[["c",cp]|["r",lo,hi]|["e","d"|"w"|"s"]…]] | ["esc",k,neg]
+        | ["seq",RX,RX] | ["alt",RX,RX] | ["rep",greedy,min,max|null,RX]
+     or {"op":"tables"}  (the ASCII tables of the model, compared with `re` by the harness)
+out: {"rxtext":[T…], "rxok":[bool…], "compile":["ok"|"reerror"|"unsupported"…], "regex":[T|null…], "gen":[T|null…],
+      "routelist":[id…], "unsupported":bool, "outcome":"urldecode"|"none"|{"id":n,"idx":i,"match":[[T,"s",T]|[T,"t",[T…]]…]},
+      "spec": same shape as outcome (least qualifying index, computed independently of the loop), "calls":[[id,k]…],
+      "nmatch":[number of ways each listed route's pattern matches the path]} -/
+open Pyr Pyr.Rx Pyr.Route Lean
+
+def jText (j : Json) : Except String Text := do
+  let cs : List Nat ← fromJson? j
+  pure (cs.map Char.ofNat)
+
+def tJson (t : Text) : Json := toJson (t.map Char.toNat)
+
+def jChar (j : Json) : Except String Char := do
+  let n : Nat ← fromJson? j
+  pure (Char.ofNat n)
+
+def jEsc (j : Json) : Except String Esc :=
+  match j with
+  | .str "d" => pure .d
+  | .str "w" => pure .w
+  | .str "s" => pure .s
+  | _ => throw "bad esc"
+
+def jItem (j : Json) : Except String CItem :=
+  match j with
+  | .arr #[.str "c", c] => do pure (.ch (← jChar c))
+  | .arr #[.str "r", a, b] => do pure (.range (← jChar a) (← jChar b))
+  | .arr #[.str "e", k] => do pure (.esc (← jEsc k))
+  | _ => throw "bad class item"
+
+def jBool (j : Json) : Except String Bool := fromJson? j
+
+partial def jRx (j : Json) : Except String Rx :=
+  match j with
+  | .arr #[.str "eps"] => pure .eps
+  | .arr #[.str "any"] => pure .any
+  | .arr #[.str "chr", c] => do pure (.chr (← jChar c))
+  | .arr #[.str "set", n, .arr items] => do pure (.set (← jBool n) (← items.toList.mapM jItem))
+  | .arr #[.str "esc", k, n] => do pure (.esc (← jEsc k) (← jBool n))
+  | .arr #[.str "seq", a, b] => do pure (.seq (← jRx a) (← jRx b))
+  | .arr #[.str "alt", a, b] => do pure (.alt (← jRx a) (← jRx b))
+  | .arr #[.str "rep", g, m, n, r] => do
+    let mx : Option Nat ← (match n with | .null => pure none | n => do let k : Nat ← fromJson? n; pure (some k))
+    let mn : Nat ← fromJson? m
+    pure (.rep (← jBool g) mn mx (← jRx r))
+  | _ => throw "bad rx"
+
+def jPred (j : Json) : Except String Pred :=
+  match j with
+  | .arr #[.str "c", b] => do pure (.const (← jBool b))
+  | .arr #[.str "e", n, v] => do pure (.eq (← jText n) (← jText v))
+  | _ => throw "bad pred"
+
+def valJson : Val → List Json
+  | .str s => [Json.str "s", tJson s]
+  | .segs xs => [Json.str "t", Json.arr (xs.map tJson).toArray]
+
+def envJson (e : Env) : Json := Json.arr (e.map fun (n, v) => Json.arr (tJson n :: valJson v).toArray).toArray
+
+def outJson (rl : List Route) : Outcome → Json
+  | .urlDecode => Json.str "urldecode"
+  | .noMatch => Json.str "none"
+  | .hit i e =>
+    let id := match rl[i]? with | some r => r.id | none => 0
+    Json.mkObj [("id", toJson id), ("idx", toJson i), ("match", envJson e)]
+
+/-- the property's right-hand side, not the loop: the least index whose route qualifies -/
+def specOutcome (u : Ucd) (rl : List Route) (raw : Option Trav.Bytes) : Outcome :=
+  match requestPath raw with
+  | none => .urlDecode
+  | some p =>
+    let q (r : Route) : Option Env :=
+      match matchToks u r.toks p with
+      | some e => if predsHold e r.preds then some e else none
+      | none => none
+    match (List.range rl.length).find? (fun i => match rl[i]? with | some r => (q r).isSome | none => false) with
+    | none => .noMatch
+    | some i => match rl[i]? with
+      | some r => (match q r with | some e => .hit i e | none => .noMatch)
+      | none => .noMatch
+
+def asciiTable (p : Char → Bool) : List Nat := (List.range 128).filter fun n => p (Char.ofNat n)
+
+def toksOk : List Tok → Bool
+  | [] => true
+  | .ph _ rx :: ts => Rx.ok rx && toksOk ts
+  | _ :: ts => toksOk ts
+
+def main : IO Unit := jsonDriver fun j => do
+  if let .ok (Json.str "tables") := j.getObjVal? "op" then
+    return Json.mkObj [
+      ("word", toJson (asciiTable (isWord Ucd.ascii))), ("digit", toJson (asciiTable (isDigit Ucd.ascii))),
+      ("space", toJson (asciiTable (isSpace Ucd.ascii))), ("special", toJson (asciiTable reSpecial))]
+  let uj ← getField j "ucd"
+  let u : Ucd := ⟨← jText (← getField uj "word"), ← jText (← getField uj "digit"), ← jText (← getField uj "space")⟩
+  let rxs ← match (← getField j "rxlib") with
+    | .arr xs => xs.toList.mapM jRx
+    | _ => throw "bad rxlib"
+  let lib := mkLib rxs
+  let routesJ ← match (← getField j "routes") with
+    | .arr xs => pure xs.toList
+    | _ => throw "bad routes"
+  let decls ← routesJ.mapM fun r => do
+    let name ← jText (← getField r "name")
+    let pattern ← jText (← getField r "pattern")
+    let preds ← match (← getField r "preds") with
+      | .arr ps => ps.toList.mapM jPred
+      | _ => throw "bad preds"
+    let static : Bool ← getAs r "static"
+    pure ({ name := name, compiled := compileRoute u lib pattern, preds := preds, static := static } : Decl)
+  let raw : Option Trav.Bytes ← match (← getField j "path") with
+    | .null => pure none
+    | p => do
+      let bs : List Nat ← fromJson? p
+      pure (some (bs.map UInt8.ofNat))
+  let m := runDecls Mapper.empty decls
+  let rl := m.routelist
+  let compileJ := decls.map fun d => match d.compiled with
+    | .ok _ => Json.str "ok"
+    | .error .reError => Json.str "reerror"
+    | .error .unsupported => Json.str "unsupported"
+  let regexJ := decls.map fun d => match d.compiled with
+    | .ok ts => tJson (regexText ts)
+    | .error _ => Json.null
+  let genJ := decls.map fun d => match d.compiled with
+    | .ok ts => tJson (genTemplate ts)
+    | .error _ => Json.null
+  let unsupported := decls.any (fun d => match d.compiled with
+    | .error .unsupported => true
+    | .ok ts => !toksOk ts
+    | _ => false)
+  let base := [
+    ("rxtext", Json.arr (rxs.map fun r => tJson (Rx.print r)).toArray),
+    ("rxok", toJson (rxs.map Rx.ok)),
+    ("compile", Json.arr compileJ.toArray), ("regex", Json.arr regexJ.toArray), ("gen", Json.arr genJ.toArray),
+    ("routelist", toJson (rl.map (·.id))), ("statics", toJson (m.statics.map (·.id))),
+    ("unsupported", toJson unsupported)]
+  if unsupported then
+    return Json.mkObj base
+  let out := mapperCall u rl raw
+  let calls := match requestPath raw with
+    | some p => predTrace u p rl
+    | none => []
+  let nmatch := match requestPath raw with
+    | some p => rl.map fun (r : Route) => (matchAll u .endOfString r.toks p).length
+    | none => []
+  return Json.mkObj (base ++ [
+    ("outcome", outJson rl out), ("spec", outJson rl (specOutcome u rl raw)),
+    ("calls", toJson (calls.map fun (a, b) => [a, b])), ("nmatch", toJson nmatch)])
